@@ -705,6 +705,10 @@ class Peer:
         # Timing instrumentation for peer message loop
         peer_loop_timer = LoopTimer(f'peer_main_{self.id()}', warn_threshold_ms=50)
 
+        # The read of the next message outlives the 100 ms poll below: cancelling it (as wait_for does when
+        # its timeout expires) would throw away the bytes of a message already partly received.
+        read_task: asyncio.Future[Message] | None = None
+
         try:
             while not self._teardown:
                 peer_loop_timer.start()
@@ -718,9 +722,13 @@ class Peer:
                     self._neighbor = None
 
                 # Read message with timeout
-                try:
-                    message = await asyncio.wait_for(self.proto.read_message(), timeout=0.1)
-                except asyncio.TimeoutError:
+                if read_task is None:
+                    read_task = asyncio.ensure_future(self.proto.read_message())
+                done, _ = await asyncio.wait({read_task}, timeout=0.1)
+                if done:
+                    finished, read_task = read_task, None
+                    message = finished.result()
+                else:
                     message = _NOP
                     await asyncio.sleep(0)
 
@@ -765,6 +773,9 @@ class Peer:
         except Exception as exc:
             log.error(lazyexc('async.mainloop.exception error={exc}', exc), self.id())
             raise
+        finally:
+            if read_task is not None:
+                read_task.cancel()
 
         # Graceful restart handling
         log.debug(
